@@ -55,3 +55,41 @@ CAMLprim value pm_compress(value names)
     free(str); free(s); hostlist_destroy(hl);
     CAMLreturn(r);
 }
+
+/* host-list services for the client model (contract: C14): all on the scratch copy's hostlist.c */
+static char *join_iter(hostlist_t hl)
+{
+    size_t cap = 256, len = 0; char *out = malloc(cap); out[0] = 0;
+    hostlist_iterator_t it = hostlist_iterator_create(hl); char *n;
+    while ((n = hostlist_next(it))) {
+        size_t l = strlen(n); if (len + l + 2 > cap) { cap = (len + l + 2) * 2; out = realloc(out, cap); }
+        if (len) out[len++] = '\n'; memcpy(out + len, n, l + 1); len += l; free(n);
+    }
+    hostlist_iterator_destroy(it); return out;
+}
+/* hostlist_create(str) then iterate: "\001" for NULL, else names joined by '\n' */
+CAMLprim value pm_expand(value s)
+{
+    CAMLparam1(s); CAMLlocal1(r);
+    hostlist_t hl = hostlist_create(String_val(s));
+    if (!hl) CAMLreturn(caml_copy_string("\001"));
+    char *o = join_iter(hl); r = caml_copy_string(o); free(o); hostlist_destroy(hl); CAMLreturn(r);
+}
+static hostlist_t push_hosts(const char *names)
+{
+    char *s = strdup(names), *p = s, *q; hostlist_t hl = hostlist_create(NULL);
+    while (*p) { q = strchr(p, '\n'); if (q) *q = 0; hostlist_push_host(hl, p); if (!q) break; p = q + 1; }
+    free(s); return hl;
+}
+static value ranged(hostlist_t hl)
+{
+    int size = 0; char *str = NULL;
+    do { size += 80; str = realloc(str, size); } while (hostlist_ranged_string(hl, size, str) == -1);
+    value r = caml_copy_string(str); free(str); return r;
+}
+CAMLprim value pm_ranged_plain(value names) { CAMLparam1(names); CAMLlocal1(r); hostlist_t hl = push_hosts(String_val(names)); r = ranged(hl); hostlist_destroy(hl); CAMLreturn(r); }
+CAMLprim value pm_sorted(value names)
+{
+    CAMLparam1(names); CAMLlocal1(r); hostlist_t hl = push_hosts(String_val(names)); hostlist_sort(hl);
+    char *o = join_iter(hl); r = caml_copy_string(o); free(o); hostlist_destroy(hl); CAMLreturn(r);
+}
